@@ -19,6 +19,11 @@ def build_world(contract_module_names, source_modules):
     for m in contract_module_names:
         w.add_source_module(m)
     libmodels.register_all(w)
+    for m in contract_module_names:
+        cm = importlib.import_module(m)
+        if hasattr(cm, 'lib_models'):
+            for f, model in cm.lib_models().items():
+                w.register_lib(f, model)
     return w
 
 
